@@ -116,6 +116,42 @@ Theorem accepted_switch_proceeds : forall cfg cmax cb mb a b, V1_0_1 < cmax ->
 Proof. exact accepted_proceeds. Qed.
 Print Assumptions accepted_switch_proceeds.
 
+(* ---- the reader may send KEEPALIVEs while negotiation is under way (k1 while the query is
+   unanswered, k2 while the switch is unanswered; any numbers) ---- *)
+
+(* they change neither the outcome, nor the version settled on, nor the negotiation messages:
+   every clause above therefore holds with keep-alives interleaved *)
+Theorem keepalives_do_not_disturb : forall cfg cmax k1 k2 r1 r2,
+  let a := negotiate_ka cfg cmax k1 k2 r1 r2 in
+  let b := negotiate cfg cmax r1 r2 in
+  n_outcome a = n_outcome b /\ n_version a = n_version b /\
+  neg_frames_only (n_frames a) = n_frames b.
+Proof. exact ka_same_result. Qed.
+Print Assumptions keepalives_do_not_disturb.
+
+(* every frame written during negotiation is a negotiation message at 1.1 or an acknowledgement
+   stamped with the version in use at that moment (the configured maximum, or the chosen one) *)
+Theorem neg_phase_frames : forall cfg cmax k1 k2 r1 r2,
+  let r := negotiate_ka cfg cmax k1 k2 r1 r2 in
+  Forall (neg_phase_frame_ok cmax (n_version r)) (n_frames r).
+Proof. exact ka_frames_ok. Qed.
+Print Assumptions neg_phase_frames.
+
+(* "every message sent afterwards carries the negotiated version", keep-alives having been
+   acknowledged during negotiation or not *)
+Theorem later_frames_negotiated_ka : forall cfg cmax k1 k2 r1 r2 ls, conforming cfg = true ->
+  let s := session_ka cfg cmax k1 k2 r1 r2 ls in
+  Forall (fun f => m_ver f = n_version (fst s) \/ is_neg_type (m_typ f) = true) (snd s).
+Proof. exact later_frames_negotiated_ka_l. Qed.
+Print Assumptions later_frames_negotiated_ka.
+
+(* an acknowledgement carries the negotiated version at whatever position of the later traffic
+   it falls (first frame after negotiation, between requests, …) — every configuration *)
+Theorem later_acks_any_position : forall cfg v ls i, nth_error ls i = Some Ack ->
+  nth_error (write_later cfg v ls) i = Some (mkMsg v MsgKeepAliveAck []).
+Proof. exact later_acks_everywhere. Qed.
+Print Assumptions later_acks_any_position.
+
 (* non-vacuity: concrete sessions *)
 (* client 1.1, reader at 1.0.1 able to do 1.1 (bytes 32, 64): query, switch to 1.1, accepted *)
 Example C06_example_switch :
@@ -130,3 +166,15 @@ Example C06_example_refused :
 Proof. vm_compute. reflexivity. Qed.
 Example C06_example_conforming : conforming (mkCfg true true) = true /\ conforming cfg_today = false.
 Proof. split; reflexivity. Qed.
+(* client 1.1, reader 1.0.1 only and at 1.0.1 (bytes 32, 32); one keep-alive while the query is
+   unanswered (acknowledged at 1.1), then ack first, request, ack, request: all at 1.0.1 *)
+Example C06_example_keepalive_inside :
+  session_ka (mkCfg true true) V1_1 1 0 (Resp 32 32 0) NoReply [Ack; Request 2 []; Ack; Request 1 [0]]
+  = (mkRes [mkMsg 2 46 []; mkMsg 2 72 []] Proceeds 1,
+     [mkMsg 1 72 []; mkMsg 1 2 []; mkMsg 1 72 []; mkMsg 1 1 [0]]).
+Proof. vm_compute. reflexivity. Qed.
+(* keep-alives at both points of a downgrade with a switch: acks at 1.1 then at 1.0.1 *)
+Example C06_example_keepalive_both :
+  n_frames (negotiate_ka (mkCfg true true) V1_1 1 1 (Resp 64 32 0) (Resp 0 0 0))
+  = [mkMsg 2 46 []; mkMsg 2 72 []; mkMsg 2 47 [1]; mkMsg 1 72 []].
+Proof. vm_compute. reflexivity. Qed.
